@@ -71,4 +71,22 @@ PROPS = {
         assumptions=ENC,
         trusted_base=["docutils 0.21.2 reporter (bounded stand-in only)"],
     ),
+    "C10": dict(
+        level="other",
+        contracts=["contracts.slug"],
+        harness=True,
+        explanation=(
+            "PROVED for all title/slug sets: compute_unique_slug returns Unique(base, slugs) - the base slug if it is "
+            "free, else base-k for the LEAST k >= 1 with base-k free, and a result never already in use (loop "
+            "invariant slug = base-(i-1), all earlier candidates taken; decimal formatting modelled as an injective "
+            "function) - raising only what a configured slug function raises; with no custom function the base is "
+            "default_slugify(title), proved to be the composition CleanSub(Replace(Lower(title))) of the documented "
+            "rule (the three library calls themselves are uninterpreted/assumed).  Termination of the uniqueness loop "
+            "is argued (pigeonhole), listed as an assumption.  BOUNDED: anchors assigned during a docutils render for "
+            "all short title sequences and random ones vs the rule + uniqueness oracle, vs the myst-anchors CLI, "
+            "'#anchor' resolution to the own heading, anchor depth 0-7, custom and raising slug functions."
+        ),
+        assumptions=ENC,
+        trusted_base=["markdown-it-py 3.0.0 token model (to_tokens of a heading = 3 tokens)", "mdit-py-plugins 0.6.1 anchors plugin (oracle of the bounded CLI comparison)"],
+    ),
 }
